@@ -368,7 +368,7 @@ REGISTRY["C19"] = {
 REGISTRY["C18"] = {
     "pkg": "props/c18",
     "level": "exploration",
-    "level_text": ("rapid-drawn definitions with 1..3 executable processes (plain chains incl. start->end without any task, throwing processes, catching processes) "
+    "level_text": ("rapid-drawn definitions with 1..3 executable processes (plain chains incl. start->end without any task, generated C01-style programs with gateways / sub-processes / conditional flows over shared initial variables, throwing processes, catching processes) "
                    "and 0..2 waiting processes, linked by message flows (throw event -> message start event of a waiting process, throw event -> intermediate "
                    "catch event of a running one); histories of task answers and waits (single, 2..4 concurrent, with expiring context, repeated after expiry, "
                    "repeated after completion); perturbation at the StartAll/watcher window. A reference token game per started process instance (instantiated "
